@@ -1,6 +1,7 @@
 package req
 
 import (
+	"bytes"
 	"github.com/imroc/req/v3/internal/charsets"
 	"io"
 	"strings"
@@ -48,30 +49,20 @@ func (a *autoDecodeReadCloser) peekRead(p []byte) (n int, err error) {
 		return
 	}
 	a.detected = true
-	enc, name := charsets.FindEncoding(p)
+	enc, name := charsets.FindEncoding(p[:n])
 	if enc == nil {
 		return
 	}
 	if a.t.Debugf != nil {
 		a.t.Debugf("charset %s found in body's meta, auto-decode to utf-8", name)
 	}
-	dc := enc.NewDecoder()
-	a.decodeReader = dc.Reader(a.ReadCloser)
-	var pp []byte
-	pp, err = dc.Bytes(p[:n])
-	if err != nil {
-		return
-	}
-	if len(pp) > len(p) {
-		a.peek = make([]byte, len(pp)-len(p))
-		copy(a.peek, pp[len(p):])
-		copy(p, pp[:len(p)])
-		n = len(p)
-		return
-	}
-	copy(p, pp)
-	n = len(p)
-	return
+	// Decode the sniffed bytes and the rest of the body through one streaming
+	// decoder, so that a multi-byte character split across two reads is decoded
+	// correctly, and return only the bytes the decoder actually produced.
+	sniffed := make([]byte, n)
+	copy(sniffed, p[:n])
+	a.decodeReader = enc.NewDecoder().Reader(io.MultiReader(bytes.NewReader(sniffed), a.ReadCloser))
+	return a.decodeReader.Read(p)
 }
 
 func (a *autoDecodeReadCloser) peekDrain(p []byte) (n int, err error) {
